@@ -554,7 +554,10 @@ def run_predform_case(p):
     outside = [rng.choice(mk)() for _ in range(3)]
     n = rng.choice([0, 0, 3, 4, 5]) if p.get('allow_empty') else rng.choice([3, 4, 5])
     dom = [rng.choice(mk)() for _ in range(n)]
-    T = rng.choice([O.PBase, O.PSub])
+    T = rng.choice([O.PBase, O.PSub, O.PInit])
+    if T is O.PInit:
+        mk = mk + [lambda: O.PInit(rng.choice(names), rng.choice([1, 2]))] * 3
+        dom = [rng.choice(mk)() for _ in range(n)]
     style = rng.choice(['kw_name', 'pos_name', 'pos_name_size', 'kw_size', 'none', 'let'])
     v_name, v_size = rng.choice(names), rng.choice([1, 2])
     try:
@@ -792,6 +795,26 @@ def run_forall_case(p):
     else:
         c = ('cmp', rng.choice(['ge', 'le']), ('attr', 1, 'size'), ('lit', rng.choice([1, 2])))
     extra = O.gen_cond(rng, 1, 1, vocab=('cmp', 'name'), neg=False) if rng.random() < 0.4 else None
+    if p.get('two_free'):
+        # two free variables x, y over the SAME domain, both constrained against the universal variable u (index 2)
+        c2 = ('and', ('cmp', rng.choice(['gt', 'ge', 'ne']), ('attr', 0, 'size'), ('attr', 2, 'size')),
+              ('cmp', rng.choice(['lt', 'le', 'ne']), ('index', 1, 'k'), ('attr', 2, 'size')))
+        try:
+            with symbolic_mode():
+                x = let(type_=O.Item, domain=dx)
+                y = let(type_=O.Item, domain=dx)
+                u = let(type_=O.Item, domain=du)
+                q = an(set_of([x, y], for_all(u, O.build(c2, [x, y, u]))))
+            got = sorted((dx.index(r[x]), dx.index(r[y])) for r in q.evaluate())
+            want = sorted((i, j) for i, a in enumerate(dx) for j, b in enumerate(dx) if all(O.holds(c2, {0: a, 1: b, 2: w}) for w in du))
+        except Exception as e:  # noqa
+            return {'shape': 'two_free', 'exception': repr(e), 'trace': traceback.format_exc(limit=4), 'signature_kind': 'two_free'}
+        finally:
+            O.enable_caching()
+        if got != want:
+            return {'shape': 'two_free', 'condition': repr(c2), 'universal_domain': repr(du), 'domain': repr(dx), 'got': got, 'want': want,
+                    'signature_kind': 'two_free'}
+        return None
     try:
         with symbolic_mode():
             x = let(type_=O.Item, domain=dx)
@@ -814,12 +837,35 @@ def run_forall_case(p):
 
 def run_concat_case(p):
     """C17: concatenate(e) is one value: all inner elements in order with multiplicity; membership and its negation"""
-    from entity_query_language import symbolic_mode, let, an, entity, concatenate, in_, not_, contains
+    from entity_query_language import symbolic_mode, let, an, entity, concatenate, in_, not_, contains, flatten
     O.reset_registry()
     rng = random.Random(p['seed'])
+    if p.get('nested'):
+        # e = flatten(x.groups) ranges over collections: concatenate(e) lists the members of every group, in order
+        dom = O.make_domain(rng, 3)
+        for o in dom:
+            o.tags = [[rng.choice([1, 2, 3]) for _ in range(rng.randint(0, 2))] if rng.random() < 0.8 else rng.choice([4, 5])
+                      for _ in range(rng.randint(0, 3))]
+        want0 = [m for o in dom for g in o.tags for m in (g if isinstance(g, list) else [g])]
+        try:
+            with symbolic_mode():
+                x = let(type_=O.Item, domain=dom)
+                q0 = an(entity(concatenate(flatten(x.tags))))
+            vals = list(q0.evaluate())
+        except Exception as e:  # noqa
+            return {'exception': repr(e), 'trace': traceback.format_exc(limit=4), 'signature_kind': 'nested-exception'}
+        if len(vals) != 1 or list(vals[0]) != want0:
+            return {'what': 'concatenate(flatten(...)) value', 'groups': repr([o.tags for o in dom]), 'got': repr(vals), 'want': repr([want0]),
+                    'signature_kind': 'nested-value'}
+        return None
     dom = O.make_domain(rng, 3, falsy=p.get('falsy', False))
     if rng.random() < 0.3:
         dom[0].tags = []
+    if rng.random() < 0.12:
+        for o in dom:
+            o.tags = []          # nothing to concatenate at all: the value is the empty list
+    if rng.random() < 0.06:
+        dom = []                 # not even a parent
     probe = [O.Item('p', i) for i in range(4)]
     neg = rng.random() < 0.5
     try:
@@ -973,8 +1019,6 @@ def run_registry_case(p):
                             'signature_kind': 'infer'}
             elif op == 'declare':
                 T = rng.choice([O.PBase, O.PSub, O.PSubSub, O.Built])
-                if not expect(T):
-                    continue
                 with symbolic_mode():
                     x = let(type_=T)
                     pending.append((T, an(entity(x))))
